@@ -19,6 +19,7 @@ import (
 	"sort"
 	"strconv"
 	"strings"
+	"syscall"
 	"time"
 
 	"github.com/containerd/nri/pkg/adaptation"
@@ -350,6 +351,23 @@ func (e *launchEnv) run(lc *launchCase) error {
 	} else {
 		opts = append(opts, adaptation.WithDisabledExternalConnections())
 	}
+	// descriptors of "the runtime" opened for this case, the way Go and pkg/net open them (close-on-exec): a file, a
+	// pipe and a socket pair that no launched plugin may see
+	var extras []io.Closer
+	if f, err := os.Create(filepath.Join(root, "runtime-case-private.txt")); err == nil {
+		extras = append(extras, f)
+	}
+	if pr, pw, err := os.Pipe(); err == nil {
+		extras = append(extras, pr, pw)
+	}
+	if fds, err := syscall.Socketpair(syscall.AF_UNIX, syscall.SOCK_STREAM|syscall.SOCK_CLOEXEC, 0); err == nil {
+		extras = append(extras, os.NewFile(uintptr(fds[0]), "case-pair-0"), os.NewFile(uintptr(fds[1]), "case-pair-1"))
+	}
+	defer func() {
+		for _, x := range extras {
+			x.Close()
+		}
+	}()
 	socketsBefore := ownSockets(nil)
 	a, err := adaptation.New("verif-runtime", "v0", syncFn, updateFn, opts...)
 	if err != nil {
@@ -1318,25 +1336,39 @@ func driveLaunch(c *hx.Ctx) error {
 			}
 		}
 	}
+	// A stream that misses its target shape is a fault of the driver — unless the tree under check caused it: several
+	// shapes are read off the observation (something was launched, the runtime noticed a lost connection, …), and a
+	// tree that breaks the property can break them too (a plugin that inherits a second descriptor of its socket
+	// never looks disconnected).  When the statement's oracle has already failed on cases of this run, those cases
+	// are the verdict (VIOLATION with a replay) and the missed shapes are only recorded; when every observation
+	// agrees with the statement a missed shape is a harness error as before.
+	var missed []string
+	shapeMissed := func(format string, args ...interface{}) {
+		if failing > 0 {
+			missed = append(missed, fmt.Sprintf(format, args...))
+			return
+		}
+		c.HarnessError(format, args...)
+	}
 	if c.Stats.Distribution["c18.launched"] == 0 || c.Stats.Distribution["c18.start.failed"] == 0 {
-		c.HarnessError("launch streams missed their target shape: %v", c.Stats.Distribution)
+		shapeMissed("launch streams missed their target shape: %v", c.Stats.Distribution)
 	}
 	if c.Stats.Distribution["c18.syncfn_fails.before"] == 0 || c.Stats.Distribution["c18.syncfn_fails.after"] == 0 ||
 		c.Stats.Distribution["c18.syncfn_fails.launched"] == 0 || c.Stats.Distribution["c18.dropin_pair.31"] == 0 {
-		c.HarnessError("start-failure / empty drop-in cases missed their target shape: %v", c.Stats.Distribution)
+		shapeMissed("start-failure / empty drop-in cases missed their target shape: %v", c.Stats.Distribution)
 	}
 	if c.Stats.Distribution["c18.sync_timeout.hanging"] == 0 || c.Stats.Distribution["c18.sync_timeout.healthy_after_hanging"] < 2 ||
 		c.Stats.Distribution["c18.sync_timeout.slow"] < 12 {
-		c.HarnessError("synchronisation time-out cases missed their target shape: %v", c.Stats.Distribution)
+		shapeMissed("synchronisation time-out cases missed their target shape: %v", c.Stats.Distribution)
 	}
 	if c.Stats.Distribution["c18.declared.empty_name"] == 0 || c.Stats.Distribution["c18.declared.malformed_index"] == 0 ||
 		c.Stats.Distribution["c18.declared.other_index"] == 0 {
-		c.HarnessError("declared-identity cases missed their target shape: %v", c.Stats.Distribution)
+		shapeMissed("declared-identity cases missed their target shape: %v", c.Stats.Distribution)
 	}
 	if n := c.Stats.Distribution["c18.silent_stop.cases"]; n == 0 || 2*c.Stats.Distribution["c18.silent_stop.noticed_before_stop"] < n {
-		c.HarnessError("silent-stop cases missed their target shape (Stop after the runtime has noticed a lost connection, no event in between): %v", c.Stats.Distribution)
+		shapeMissed("silent-stop cases missed their target shape (Stop after the runtime has noticed a lost connection, no event in between): %v", c.Stats.Distribution)
 	}
-	c.Stats.Extra = map[string]interface{}{"probe_build_ms": buildMs, "cases": total, "cases_failing_go_oracle": failing,
+	c.Stats.Extra = map[string]interface{}{"probe_build_ms": buildMs, "cases": total, "cases_failing_go_oracle": failing, "target_shapes_missed_while_the_oracle_failed": missed,
 		"observed_only": "launch-once, environment, descriptor inheritance (/proc/self/fd of the child), kill and reap (/proc/<pid>/stat) are operating-system behaviour observed on the implementation; they are not proved"}
 	c.Stats.Rule = "generated plugin directories (probe copies with every execute-bit pattern, non-executables, sub-directories, symbolic links, non-binaries, malformed names), drop-in directories (all 16 state pairs of idx-name.conf x name.conf over missing / content / unreadable / present but empty), failure modes chosen by the probe's file name (exits at once, never registers, closes its socket, Configure fails, Synchronize fails, exits later, closes its connection later and keeps running) started by a real Adaptation; after the later deaths either three more events are sent (the dead plugins are dropped, killed and reaped) or - stream stopsilent and two corpus cases - NO event or request: the driver waits until the runtime has closed its end of the lost connections (its own descriptor table) and calls Stop; stream declared and one corpus case: healthy plugins whose RegisterPlugin request declares an identity of their own (an index that would sort elsewhere, an empty name, a malformed index, another name) next to ordinary ones - all must be kept, invoked at their file-name position, running after Start, gone after Stop; stream synctimeout and two corpus cases: with a 3 s request time-out one plugin never answers Synchronize (it is dropped and killed) while healthy plugins before and after it in index order, and twelve plugins that each answer after 300 ms, must all be kept and invoked in order; stream startfail and two corpus cases: the runtime's SyncFn returns an error before or after calling the NRI callback, Start must fail and every process launched by the attempt must be gone when it returns; after Stop every launched pid must be gone from the process table (no live process, no zombie child); a case is non-trivial when at least one process was launched or Start failed on a malformed name / unreadable drop-in"
 	return nil
